@@ -62,7 +62,7 @@ class Cfg(object):
         self.srs = tuple(srs)
         self.fmts = tuple(fmts)
         self.ofmt = ofmt
-        self.cov = cov            # (srs code, bbox) or None
+        self.cov = cov            # (srs code, bbox) or (srs code, bbox, hole): the bbox without the (open) hole, or None
         self.minres = minres
         self.maxres = maxres
         self.fwd = frozenset(fwd)
@@ -74,7 +74,8 @@ class Cfg(object):
     def record(self):
         """the constant record of the model"""
         cov = {'on': bool(self.cov), 'srs': self.cov[0] if self.cov else '',
-               'bbox': tuple(self.cov[1]) if self.cov and self.lattice else (0, 0, 0, 0)}
+               'bbox': tuple(self.cov[1]) if self.cov and self.lattice else (0, 0, 0, 0),
+               'hole': tuple(self.cov[2]) if self.cov and len(self.cov) > 2 and self.lattice else (0, 0, 0, 0)}
         g = self.grid or dict(srs='', bbox=(0, 0, 0, 0), res=(1,), ts=(1, 1), ul=False)
         flag = (lambda v: v) if self.lattice else (lambda v: 1 if v else 0)
         return {'kind': self.kind, 'host': self.host, 'srs': self.srs, 'fmts': self.fmts, 'ofmt': self.ofmt,
@@ -101,6 +102,10 @@ class Cfg(object):
                 c['image'] = {'opacity': 0.5}
         if self.cov:
             c['coverage'] = {'bbox': list(self.cov[1]), 'srs': self.cov[0]}
+            if len(self.cov) > 2:
+                # a coverage that is not a rectangle: its extent is still the bounding box
+                c['coverage'] = {'difference': [{'bbox': list(self.cov[1]), 'srs': self.cov[0]},
+                                                {'bbox': list(self.cov[2]), 'srs': self.cov[0]}]}
         if self.minres:
             c['min_res'] = self.minres
         if self.maxres:
@@ -114,6 +119,7 @@ COV_A2 = (A, (100, 60, 500, 420))
 COV_B = (A, (130, 90, 370, 250))
 COV_C = (M, (0, 0, 640, 640))
 COV_D = (M, (-200, -200, 90, 90))
+COV_RING = (M, (100, 60, 500, 420), (180, 140, 420, 340))
 
 G_S = dict(srs=M, bbox=(0, 0, 640, 640), res=(80, 40, 20), ts=(4, 4), ul=False)
 G_UL = dict(srs=M, bbox=(0, 0, 640, 400), res=(80, 40, 20), ts=(4, 4), ul=True)
@@ -133,6 +139,8 @@ def lattice_sources():
         Cfg('w07', srs=(M,), fmts=('jpeg', 'png'), ofmt='jpeg', cov=COV_C, minres=80, fwd=('foo',)),
         Cfg('w08', fmts=('jpeg',), cov=COV_B, fwd=('dim_x',)),
         Cfg('w09', srs=(A, M), fmts=('png', 'jpeg'), ofmt='png', cov=COV_D, maxres=20),
+        Cfg('w10', srs=(M,), fmts=('png',), cov=COV_RING, fwd=('time',)),
+        Cfg('w11', cov=COV_RING, minres=80),
         # one upstream server (h2) offering several layers: what combined_layers may merge
         Cfg('k01', host='h2', srs=(M,), minres=40),
         Cfg('k02', host='h2', srs=(M,), maxres=40),
@@ -587,6 +595,12 @@ class Oracle(object):
         c = cfg.cov[1]
         b = self.bbox_to(bbox, srs, cfg.cov[0])
         mx, my = margin * (c[2] - c[0]), margin * (c[3] - c[1])
+        if len(cfg.cov) > 2:
+            h = cfg.cov[2]
+            if b[0] >= h[0] + mx and b[2] <= h[2] - mx and b[1] >= h[1] + my and b[3] <= h[3] - my:
+                return 'disjoint'
+            if b[0] >= h[0] - mx and b[2] <= h[2] + mx and b[1] >= h[1] - my and b[3] <= h[3] + my:
+                return 'fuzzy'
         if b[0] >= c[2] + mx or b[2] <= c[0] - mx or b[1] >= c[3] + my or b[3] <= c[1] - my:
             return 'disjoint'
         if b[0] >= c[0] + mx and b[2] <= c[2] - mx and b[1] >= c[1] + my and b[3] <= c[3] - my:
